@@ -3,8 +3,13 @@ Model of the text *writer* for whole values (property C06): what the generated
 `WriteToTextStream` methods (generated_code_templates: `struct_text_stream`,
 `write_field_to_text_stream`, `write_read_only_field_to_text_stream`), the scalar views
 (emboss_prelude.h, emboss_enum_view.h via emboss_text_util.h) and
-`WriteArrayToTextStream` send to the stream, for an `Ok` view (`allow_partial_output`
-plays no role: every element is readable).
+`WriteArrayToTextStream` send to the stream.
+
+For an `Ok` view every leaf is readable and `allow_partial_output` plays no role.  A view that
+is not `Ok` can only be written with `allow_partial_output` (without it `Read()` CHECK-fails:
+not modelled); its unreadable *atomic* fields / array elements (`!IsAggregate() && !Ok()`) are
+the `skip` nodes of the value tree: left out of the text, mentioned in an `UNREADABLE` comment
+when comments are on.  Aggregates are always visited.
 
 The writer is modelled at the level of the `stream->Write(...)` calls: a list of
 *pieces* (token, punctuation, white space, comment), whose concatenation is the text.
@@ -77,10 +82,14 @@ inductive TVal where
 inductive TVals where
   | nil
   | cons (v : TVal) (vs : TVals)
+  /-- an atomic element that is not `Ok()` (only written about with `allow_partial_output`) -/
+  | skip (vs : TVals)
 /-- `readOnly`: written by `write_read_only_field_to_text_stream` (a comment). -/
 inductive TFields where
   | nil
   | cons (name : List Char) (readOnly : Bool) (v : TVal) (fs : TFields)
+  /-- an atomic field (read-only or not) that exists but is not `Ok()` -/
+  | skip (name : List Char) (fs : TFields)
 end
 
 /-- `options.numeric_base() == 10 ? 16 : 10` -/
@@ -113,9 +122,12 @@ def asciiChar : TVal → Char
   | .scalar (.int _ v) => if 32 ≤ v ∧ v ≤ 126 then Char.ofNat v.toNat else '.'
   | _ => '.'
 
+/-- (8-bit integer elements are never unreadable by content and `ElementCount()` counts complete
+elements only, so a `skip` does not occur in an `ascii` array; it contributes nothing here.) -/
 def asciiChars : TVals → List Char
   | .nil => []
   | .cons v vs => asciiChar v :: asciiChars vs
+  | .skip vs => asciiChars vs
 
 /-- `WriteShorthandAsciiArrayCommentToTextStream`: blocks of 64 characters, each on its own
 comment line `\n<indent># …`.  Fuel = number of characters left. -/
@@ -129,6 +141,8 @@ def TVals.isNil : TVals → Bool
   | .nil => true
   | _ => false
 
+def unreadable : List Char := "UNREADABLE".toList
+
 mutual
 /-- `view.WriteToTextStream(stream, o)`. -/
 def writeVal (o : Opts) : TVal → List Piece
@@ -140,7 +154,7 @@ def writeVal (o : Opts) : TVal → List Piece
             asciiLines o.plusOne.current (asciiChars vs).length (asciiChars vs) else []) ++
           (writeElemsML o 0 vs ++ [.space ('\n' :: o.current), .punct '}']))
     else
-      .punct '{' :: (writeElemsSL o 0 vs ++ [.space [' '], .punct '}'])
+      .punct '{' :: (writeElemsSL o 0 false vs ++ [.space [' '], .punct '}'])
   | .struct fs =>
     (if o.multiline then [.punct '{', .space ['\n']] else [.punct '{']) ++
       (writeFields o false fs ++
@@ -151,14 +165,28 @@ def writeElemsML (o : Opts) (i : Nat) : TVals → List Piece
   | .nil => []
   | .cons v vs =>
     .space ('\n' :: o.plusOne.current) :: (indexMarker o i ++ (writeVal o.plusOne v ++ writeElemsML o (i + 1) vs))
+  | .skip vs =>
+    -- `"\n" indent "# [" i "]: UNREADABLE"` (comments only)
+    (if o.comments then
+        [.space ('\n' :: o.plusOne.current),
+          .comment (' ' :: '[' :: (writeInt .u64 i o.base o.grouping ++ (']' :: ':' :: ' ' :: unreadable)))]
+      else []) ++ writeElemsML o (i + 1) vs
 
 /-- single-line loop of `WriteArrayToTextStream` from index `i`
-(`i < ElementCount() - 1` ⇔ more elements follow). -/
-def writeElemsSL (o : Opts) (i : Nat) : TVals → List Piece
+(`i < ElementCount() - 1` ⇔ more elements follow); `skipped` = `skipped_unreadable`. -/
+def writeElemsSL (o : Opts) (i : Nat) (skipped : Bool) : TVals → List Piece
   | .nil => []
   | .cons v vs =>
-    .space [' '] :: ((if i % 8 = 0 then indexMarker o i else []) ++
-      (writeVal o.plusOne v ++ ((if vs.isNil then [] else [.punct ',']) ++ writeElemsSL o (i + 1) vs)))
+    .space [' '] :: ((if i % 8 = 0 ∨ skipped = true then indexMarker o i else []) ++
+      (writeVal o.plusOne v ++ ((if vs.isNil then [] else [.punct ',']) ++ writeElemsSL o (i + 1) false vs)))
+  | .skip vs =>
+    -- `" # "`, `"[" i "]: "` on every eighth index, `"UNREADABLE\n"` (comments only)
+    (if o.comments then
+        [.space [' '],
+          .comment (' ' :: ((if i % 8 = 0 then
+            '[' :: (writeInt .u64 i o.base o.grouping ++ [']', ':', ' ']) else []) ++ unreadable)),
+          .space ['\n']]
+      else []) ++ writeElemsSL o (i + 1) true vs
 
 /-- the `${write_fields}` clauses; `wrote` = `emboss_reserved_local_wrote_field`. -/
 def writeFields (o : Opts) (wrote : Bool) : TFields → List Piece
@@ -174,6 +202,12 @@ def writeFields (o : Opts) (wrote : Bool) : TFields → List Piece
     (if o.comments then
         [.space o.plusOne.current,
           .comment (' ' :: (name ++ (':' :: ' ' :: render (writeVal o.plusOne v)))), .space ['\n']]
+      else []) ++ writeFields o wrote fs
+  | .skip name fs =>
+    -- `# name: UNREADABLE\n` (comments only; both templates), `wrote` unchanged
+    (if o.comments then
+        (if o.multiline then [.space o.plusOne.current] else []) ++
+          [.comment (' ' :: (name ++ (':' :: ' ' :: unreadable))), .space ['\n']]
       else []) ++ writeFields o wrote fs
 end
 
